@@ -225,7 +225,9 @@ pub fn exercise(img: &[u8], desc: &str, idx: u64, rep: &mut Reporter, cover: &mu
                                 m.rep.violation("C09", "yield-more-than-recordCount/raw", idx, &format!("{}: raw iterator yielded {} items, recordCount is {}", desc, yielded, pc.records));
                                 break;
                             }
-                            if yielded >= YIELD_CAP {
+                            // a prototype of tens of thousands of records makes every step cost in proportion: a few
+                            // steps per iterator are enough there (the per-call budgets are checked on each)
+                            if yielded >= YIELD_CAP || (pc.prototype.len() > 4096 && yielded >= 6) {
                                 cover.hit("raw:end-cap");
                                 break;
                             }
@@ -244,7 +246,9 @@ pub fn exercise(img: &[u8], desc: &str, idx: u64, rep: &mut Reporter, cover: &mu
             None => {}
         }
         // simple iterator under option vectors
-        let opts: Vec<u8> = if all_opts {
+        let opts: Vec<u8> = if pc.prototype.len() > 4096 {
+            vec![Opts::DEFAULT.0, r.usize(64) as u8]
+        } else if all_opts {
             (0..64).collect()
         } else {
             vec![Opts::DEFAULT.0, r.usize(64) as u8, r.usize(64) as u8, r.usize(64) as u8]
@@ -297,7 +301,7 @@ pub fn exercise(img: &[u8], desc: &str, idx: u64, rep: &mut Reporter, cover: &mu
                                     m.rep.violation("C09", "yield-more-than-recordCount/simple", idx, &format!("{}: simple iterator yielded {} items, recordCount is {}", desc, yielded, pc.records));
                                     break;
                                 }
-                                if yielded >= YIELD_CAP_SIMPLE {
+                                if yielded >= YIELD_CAP_SIMPLE || (pc.prototype.len() > 4096 && yielded >= 6) {
                                     break;
                                 }
                             }
